@@ -1,0 +1,38 @@
+// Licensed to Apache Software Foundation (ASF) under one or more contributor
+// license agreements. See the NOTICE file distributed with
+// this work for additional information regarding copyright
+// ownership. Apache Software Foundation (ASF) licenses this file to you under
+// the Apache License, Version 2.0 (the "License"); you may
+// not use this file except in compliance with the License.
+// You may obtain a copy of the License at
+//
+//     http://www.apache.org/licenses/LICENSE-2.0
+//
+// Unless required by applicable law or agreed to in writing,
+// software distributed under the License is distributed on an
+// "AS IS" BASIS, WITHOUT WARRANTIES OR CONDITIONS OF ANY
+// KIND, either express or implied.  See the License for the
+// specific language governing permissions and limitations
+// under the License.
+
+//go:build verif
+
+// Contracts for the verification harness (comment-only; compiled only with -tags verif).
+// Syntax: see /verif/DESIGN.md §2.2.
+
+package partition
+
+//@ property C16
+//
+// The shard of a key is hash(key) mod shardNum: defined exactly when shardNum >= 1, always below shardNum, and a
+// function of the key bytes and the shard count only (the functions read and write nothing else).
+//@ func ShardID
+//@   mode int
+//@   pure
+//@   ensures  defined: (result1 == nil) == (shardNum >= 1)
+//@   ensures  inrange: result1 == nil ==> result0 < uint(shardNum)
+//@   ensures  value:   result1 == nil ==> result0 == uint(convert.hashOf(key[:]) % uint64(shardNum))
+//@ func TraceShardID
+//@   mode int
+//@   ensures  inrange: shardNum >= 1 ==> uint64(result) < uint64(shardNum)
+//@   ensures  zero:    shardNum == 0 ==> result == 0
